@@ -51,15 +51,27 @@ struct View {
    tuples: Vec<Vec<E>>,
    keys: Vec<Vec<E>>,
    empty: Option<bool>,
+   le_panics: Option<bool>,
 }
 impl View {
-   fn new(name: &'static str) -> Self { View { name, tuples: vec![], keys: vec![], empty: None } }
+   fn new(name: &'static str) -> Self { View { name, tuples: vec![], keys: vec![], empty: None, le_panics: None } }
    fn render(mut self) -> String {
       let e = match self.empty {
          None => "null".to_string(),
          Some(b) => b.to_string(),
       };
-      format!("\"{}\":{{\"t\":{},\"k\":{},\"e\":{}}}", self.name, fmt_rows(&mut self.tuples), fmt_rows(&mut self.keys), e)
+      let lp = match self.le_panics {
+         None => "null".to_string(),
+         Some(b) => b.to_string(),
+      };
+      format!(
+         "\"{}\":{{\"t\":{},\"k\":{},\"e\":{},\"lp\":{}}}",
+         self.name,
+         fmt_rows(&mut self.tuples),
+         fmt_rows(&mut self.keys),
+         e,
+         lp
+      )
    }
 }
 
@@ -391,11 +403,8 @@ macro_rules! ter_impl {
                      }
                   }
                }
-               if !c.0.map.is_empty() {
-                  // len_estimate divides by sqrt(map.len()) truncated: only called when the map is non-empty,
-                  // as the generated code reaches it only through a non-empty relation
-                  let _ = ix.len_estimate();
-               }
+               // len_estimate of this view divides by (map.len() as f32).sqrt() as usize: observed separately
+               v.le_panics = Some(panic::catch_unwind(AssertUnwindSafe(|| ix.len_estimate())).is_err());
                out.push(v.render());
                let mut v = View::new("i12_all");
                for ((x, y), it) in ix.iter_all() {
